@@ -198,7 +198,19 @@ func predFuncs(p int) (func(*graph.DenseGraph) bool, func(*graph.DenseGraph) boo
 	return never, never
 }
 
-func buildWorld(wp worldParams) *world {
+// buildWorld constructs fresh shared values. If the tree under test cannot even build
+// them sequentially (a panic in a constructor), that is not this property's business:
+// it returns nil and the run is skipped.
+func buildWorld(wp worldParams) (w *world) {
+	defer func() {
+		if p := recover(); p != nil {
+			w = nil
+		}
+	}()
+	return buildWorldUnsafe(wp)
+}
+
+func buildWorldUnsafe(wp worldParams) *world {
 	w := &world{}
 	mg := randomModel(wp.gn, wp.gseed, wp.gden)
 	w.dense = denseOf(mg)
@@ -1199,6 +1211,10 @@ func runOne(r *driver.Run) {
 			// the pair's solo result: the producer with a channel it can never fill, then drained
 			wp.chanCap[s.p[1]] = 1 << 16
 			w := buildWorld(wp)
+			if w == nil {
+				r.Count("skipped_world_cannot_be_built", 1)
+				return
+			}
 			prod := makeTask(spec{kind: kCliqueProducer, p: s.p}, w, &Rec{})
 			cons := makeTask(s, w, &expected[i])
 			y, pan, over := sched.Solo(20_000_000, func() { prod(); cons() })
@@ -1212,6 +1228,10 @@ func runOne(r *driver.Run) {
 			continue
 		}
 		w := buildWorld(wp)
+		if w == nil {
+			r.Count("skipped_world_cannot_be_built", 1)
+			return
+		}
 		f := makeTask(s, w, &expected[i])
 		y, pan, over := sched.Solo(20_000_000, f)
 		soloYields += y
@@ -1256,6 +1276,10 @@ func runOne(r *driver.Run) {
 
 	// ---- the concurrent pass on fresh values
 	w := buildWorld(sc.wp)
+	if w == nil {
+		r.Count("skipped_world_cannot_be_built", 1)
+		return
+	}
 	before := snapshot(w)
 	got := make([]Rec, nt)
 	tasks := make([]func(), nt)
